@@ -74,6 +74,8 @@ func c15Configs() []*hConfig {
 		mk("k:asc from [load, load, branch b at first commit]", "k:asc", 0, 0, [2]int{-2, -1}, load0, load1, mkbFirst),
 		mk("k:asc from [load, branch b, load@b, branch c from b]", "k:asc", 0, 0, [2]int{-2, -1}, load0, mkbTip, hOp{Kind: "load", Branch: "b", Batch: 1}, hOp{Kind: "createbranch", Branch: "b", Name: "c", At: -1}),
 		mk("k:asc from [load, delete, branch b at first commit]", "k:asc", 0, 0, [2]int{-2, -1}, load0, hOp{Kind: "delete", Branch: "main", Obj: []int{0}}, mkbFirst),
+		// both sides touch the same objects: the parent compacts what the child then deletes (config 5)
+		mk("k:asc from [load, load, branch b at tip, compact on main]", "k:asc", 0, 0, [2]int{-1, -1}, load0, load1, mkbTip, hOp{Kind: "compact", Branch: "main", Obj: []int{0, 1}}),
 		mk("k:desc thresh=1 from empty", "k:desc", 1, 1, [2]int{0, 0}),
 		mk("k:desc thresh=1 from [load, branch b at tip]", "k:desc", 1, 1, [2]int{-2, -1}, load0, mkbTip),
 	}
@@ -89,14 +91,14 @@ func TestC15(t *testing.T) {
 	if d := envInt("VERIF_DEPTH"); d > 0 {
 		depth = d
 	}
-	sel := []int{0, 1, 2, 3, 4}
+	sel := []int{0, 1, 2, 3, 4, 5}
 	if rep.Thorough() {
-		sel = []int{0, 1, 2, 3, 4, 5, 6}
+		sel = []int{0, 1, 2, 3, 4, 5, 6, 7}
 	}
 	runHistoryShards(t, run, "c15", len(c15Configs()), sel, depth, rep.Deadline(4*time.Minute, 90*time.Minute))
 	// merge racing with commits on the parent / child: all interleavings
 	c15Races(t, run)
-	run.Set("rule", "BFS to the stated depth over {load(2 batches), delete, delete-where, compact, revert(any of the last 3 commits of the chain), create branch b (at tip / first commit) and c (from b or main), merge in every direction} on main and up to two branches; model: merge(c→p) = p ∪ (c∖a) ∖ (a∖c) with a the nearest common commit, or an error that leaves p untouched; revert(x) removes x's additions still present and restores x's deletions still absent. Every state: all branches and all earlier commits readable and equal to the model. Plus merge‖load races explored under the controlled scheduler")
+	run.Set("rule", "BFS to the stated depth over {load(2 batches), delete, delete-where, compact, revert(any of the last 3 commits of the chain), create branch b (at tip / first commit) and c (from b or main), merge in every direction} on main and up to two branches; model: merge(c→p) = p ∪ (c∖a) ∖ (a∖c) on objects with a the nearest common commit, and additionally on values as multisets (parent's values + child's additions - child's deletions), or an error that leaves p untouched; revert(x) removes x's additions still present and restores x's deletions still absent. Every state: all branches and all earlier commits readable and equal to the model. Plus merge‖load races explored under the controlled scheduler")
 	run.Assume("merge is allowed to fail (conflict, nothing to merge); a failure must leave every branch untouched and readable")
 }
 
